@@ -28,7 +28,16 @@ type solverCfg struct {
 
 var solverCfgs = []solverCfg{
 	{"z3-5.1.0", func(f string, t int) []string { return []string{"z3-new", fmt.Sprintf("-T:%d", t), f} }},
+	{"z3-5.1.0-norelevancy", func(f string, t int) []string {
+		return []string{"z3-new", fmt.Sprintf("-T:%d", t), "smt.relevancy=0", f}
+	}},
+	{"z3-5.1.0-noautoconfig", func(f string, t int) []string {
+		return []string{"z3-new", fmt.Sprintf("-T:%d", t), "smt.auto_config=false", f}
+	}},
 	{"z3-4.8.12", func(f string, t int) []string { return []string{"/usr/bin/z3", fmt.Sprintf("-T:%d", t), f} }},
+	{"z3-4.8.12-seed1", func(f string, t int) []string {
+		return []string{"/usr/bin/z3", fmt.Sprintf("-T:%d", t), "smt.random_seed=1", f}
+	}},
 	{"cvc5-1.0.3", func(f string, t int) []string { return []string{"cvc5", fmt.Sprintf("--tlimit=%d", t*1000), f} }},
 	{"cvc5-1.0.3-enum", func(f string, t int) []string {
 		return []string{"cvc5", "--enum-inst", fmt.Sprintf("--tlimit=%d", t*1000), f}
